@@ -253,6 +253,11 @@ class Gen:
         self.p_bad = p_bad
         self.max_decls = max_decls
         self.comments = comments
+        self.p_async = 0.15
+        self.kind_choices = ['enum', 'flags', 'record', 'record', 'interface', 'interface', 'function', 'error']
+        self.flag_counts = [0, 0, 0, 1, 1, 2, 3]
+        self.well_typed = False      # references spelled so that they resolve from where they are written; kinds respect the rules
+        self.cur_ns = []
         self.allow_fn_types = allow_fn_types
         self.dup_names = dup_names
 
@@ -280,7 +285,7 @@ class Gen:
 
     def flagseq(self):
         r = self.r
-        n = r.choice([0, 0, 0, 1, 1, 2, 3])
+        n = r.choice(self.flag_counts)
         return [r.choice(self.FLAGS_BAD) if self.bad(0.5) else r.choice(self.FLAGS_OK) for _ in range(n)]
 
     def program(self):
@@ -288,7 +293,7 @@ class Gen:
         n = r.randint(1, self.max_decls)
         decls = []
         for i in range(n):
-            k = r.choice(['enum', 'flags', 'record', 'record', 'interface', 'interface', 'function', 'error'])
+            k = r.choice(self.kind_choices)
             nm = r.choice(self.NAMES) if (self.dup_names and r.random() < 0.25) else f'u{i}'
             decls.append({'k': k, 'name': nm, 'ns': r.choice(self.NSS)})
         self.decls = decls
@@ -304,7 +309,7 @@ class Gen:
         n = r.randint(1, self.max_decls)
         own = []
         for i in range(n):
-            k = r.choice(['enum', 'flags', 'record', 'record', 'interface', 'interface', 'function', 'error'])
+            k = r.choice(self.kind_choices)
             own.append({'k': k, 'name': f'{prefix}u{i}', 'ns': r.choice(self.NSS)})
         self.decls = own + [dict(d) for d in visible]
         for d in own:
@@ -317,6 +322,12 @@ class Gen:
         r = self.r
         q = target['ns'] + [target['name']]
         m = r.random()
+        if self.well_typed and not self.dup_names:
+            # names are unique, so the bare name resolves from inside the target's namespace (and below); otherwise qualify fully
+            inside = self.cur_ns[:len(target['ns'])] == target['ns']
+            if inside and m < 0.5:
+                return target['name']
+            return '.' + '.'.join(q)
         if m < 0.4:
             return target['name']
         if m < 0.6:
@@ -337,7 +348,7 @@ class Gen:
                 k = r.choice([1, 2, 3])
             if self.bad(0.3):
                 g = r.choice(['i32', self.decls[0]['name'], 'nope'])
-            t = {'name': g, 'args': [self.dtype(depth + 1) for _ in range(k)], 'opt': r.random() < 0.15}
+            t = {'name': g, 'args': [self.dtype(depth + 1, 'field' if self.well_typed else None) for _ in range(k)], 'opt': r.random() < 0.15}
             return t
         if self.bad(0.5):
             return {'name': r.choice(['nope', 'n1.nope', '.zz', 'list', 'map']), 'args': [], 'opt': r.random() < 0.2}
@@ -346,12 +357,18 @@ class Gen:
             cands = [d for d in self.decls if d['k'] == 'error'] or self.decls
         elif want == 'nonerror' and not self.bad():
             cands = [d for d in self.decls if d['k'] not in ('error',)] or self.decls
+        elif want in ('field', 'scalar'):
+            cands = [d for d in self.decls if d['k'] in ('enum', 'flags', 'record')]
+        if self.well_typed and want == 'error' and cands:
+            return {'name': self.spell(r.choice(cands)), 'args': [], 'opt': False}
         if m < 0.55 or not cands:
             return {'name': r.choice(BUILTINS), 'args': [], 'opt': r.random() < 0.2}
         return {'name': self.spell(r.choice(cands)), 'args': [], 'opt': r.random() < 0.2}
 
     def tref(self, depth=0, want='nonerror'):
-        if self.allow_fn_types and depth < 2 and self.r.random() < 0.12:
+        if want == 'scalar':
+            return self.dtype(2, want)
+        if self.allow_fn_types and want != 'field' and depth < 2 and self.r.random() < 0.12:
             pool = self.__dict__.setdefault('_fn_pool', [])
             if pool and self.r.random() < 0.35:
                 import copy
@@ -365,12 +382,14 @@ class Gen:
         r = self.r
         return {'flags': self.flagseq() if keyword else None,
                 'params': [(f'p{i}', self.tref(depth + 1)) for i in range(r.choice([0, 1, 1, 2, 3]))],
-                'throws': ([self.dtype(0, 'error') for _ in range(r.choice([0, 1, 1, 2]))] if r.random() < 0.3 else None),
+                'throws': ([self.dtype(2 if self.well_typed else 0, 'error') for _ in range(r.choice([0, 1, 1, 2]) if not self.well_typed or any(d['k'] == 'error' for d in self.decls) else 0)]
+                           if r.random() < 0.3 else None),
                 'ret': self.tref(depth + 1) if r.random() < 0.5 else None}
 
     def fill(self, d):
         r = self.r
         k = d['k']
+        self.cur_ns = d['ns']
         d['comment'] = self.comment(('deprecated',))
         if k == 'enum':
             d['items'] = [{'name': f'i{j}', 'comment': self.comment(('deprecated',))} for j in range(r.choice([0, 1, 2, 4]))]
@@ -380,9 +399,10 @@ class Gen:
                           for j in range(r.choice([0, 1, 3, 5]))]
         elif k == 'record':
             d['flags'] = self.flagseq()
-            d['fields'] = [{'name': f'f{j}', 'type': self.tref(0), 'comment': self.comment(('deprecated',))} for j in range(r.choice([0, 1, 2, 4]))]
             m = r.random()
             d['deriving'] = None if m < 0.5 else r.choice([[], ['eq'], ['ord'], ['eq', 'ord'], ['eq', 'eq']]) if not self.bad() else r.choice([['bar'], ['eq', 'hash'], ['Ord']])
+            fw = ('scalar' if 'ord' in (d['deriving'] or []) else 'field') if self.well_typed else 'nonerror'
+            d['fields'] = [{'name': f'f{j}', 'type': self.tref(0, fw), 'comment': self.comment(('deprecated',))} for j in range(r.choice([0, 1, 2, 4]))]
         elif k == 'interface':
             d['main'] = r.random() < (0.1 if not self.bad() else 0.5)
             d['flags'] = ['+cpp'] if (d['main'] and not self.bad()) else self.flagseq()
@@ -391,7 +411,7 @@ class Gen:
             for j in range(r.choice([0, 1, 2, 4])):
                 static = r.random() < (0.3 if cpp_only or self.bad() else 0.0)
                 const = (not static or self.bad()) and r.random() < 0.2
-                ms.append({'name': f'm{j}', 'static': static, 'const': const, 'async': r.random() < 0.15,
+                ms.append({'name': f'm{j}', 'static': static, 'const': const, 'async': r.random() < self.p_async,
                            'sig': self.fnsig(0), 'comment': self.comment(('deprecated', 'param'))})
             d['methods'] = ms
             d['props'] = [{'name': f'pr{j}', 'type': self.tref(0), 'comment': self.comment(('deprecated',))} for j in range(r.choice([0, 0, 0, 1]))]
@@ -435,6 +455,9 @@ class Render:
         out = []
         prev = None
         for t in toks:
+            if t.startswith('#') and self.style == 'random' and self.r is not None:
+                # blanks after '#' and at the end of a comment line are layout, too
+                t = '#' + self.r.choice(['', ' ', '  ', '\t']) + t[1:].strip(' \t') + self.r.choice(['', ' ', '  ', '  ', '\t', '   '])
             if prev is not None:
                 if prev.startswith('#'):
                     s = '\n' + (self.sep().replace('\r', '') if self.style != 'min' else '')
